@@ -185,9 +185,10 @@ type worker struct {
 }
 
 type Pool struct {
-	exe     string
-	n       int
-	timeout time.Duration
+	exe      string
+	n        int
+	timeout  time.Duration
+	retrying bool
 }
 
 func NewPool(n int) (*Pool, error) {
@@ -292,5 +293,31 @@ func (p *Pool) Run(reqs []GenReq) ([]GenResp, error) {
 	}
 	close(jobs)
 	wg.Wait()
-	return resps, firstErr
+	if firstErr != nil || p.retrying {
+		return resps, firstErr
+	}
+	// a worker that died or timed out: ask once more (a crash caused by the input
+	// is deterministic, one caused by the machine is not)
+	var again []int
+	for i := range resps {
+		if resps[i].Crash != "" {
+			again = append(again, i)
+		}
+	}
+	if len(again) > 0 {
+		sub := make([]GenReq, len(again))
+		for k, i := range again {
+			sub[k] = reqs[i]
+		}
+		p2 := &Pool{exe: p.exe, n: p.n, timeout: p.timeout, retrying: true}
+		r2, err := p2.Run(sub)
+		if err != nil {
+			return resps, err
+		}
+		for k, i := range again {
+			r2[k].ID = i
+			resps[i] = r2[k]
+		}
+	}
+	return resps, nil
 }
